@@ -267,6 +267,47 @@ def role_value(an, prog, v, role, table='ctx'):
     return v
 
 
+def get_eid_of(an, tag, half_value, facts=()):
+    """What `get_eid()` returns on a half (request/response context) whose value is `half_value`, under `facts`:
+    summary composition - the getter is interpreted on that state.  -> list of return leaves, or None when a path of the
+    getter does not return.  Makes the C13 rules independent of how the cell represents the EID."""
+    ent = 'trait.%s.get_eid' % tag
+    if ent not in an.entries:
+        return None
+    key = an.entries[ent]['key']
+
+    def make(interp, st, inst):
+        st.heap['self'] = half_value
+        return [('ref', (('heap', 'self'), ()))]
+
+    def assume(interp, st):
+        return list(facts)
+    try:
+        leaves, na = an.run_custom(key, make, assume=assume)
+    except Exception:
+        return None
+    if not leaves or any(l.kind != 'return' for l in leaves):
+        return None
+    return leaves
+
+
+def eid_is(an, tag, half_value, facts, want):
+    rets = get_eid_of(an, tag, half_value, facts)
+    return bool(rets) and all(eq_under(l.know, l.value, want) is True for l in rets)
+
+
+def half_value_of(an, prog, ctx_value, name):
+    """The request / response half inside a whole-context value, through the discovered role path."""
+    an.rename_tables()
+    for actual, canon in an.roles_found.get('ctx_halves', []):
+        if canon == ('self', name):
+            v = ctx_value
+            for nm in actual[1:]:
+                v = struct_field(prog, v, nm)
+            return v
+    raise KeyError(name)
+
+
 def param_names(prog, key):
     inst = prog.instances[key]
     names = dict((a, n) for a, n in inst['body']['names'])
@@ -416,8 +457,7 @@ def c13(chk):
             if ok:
                 v = leaves[0].value
                 try:
-                    cell = role_value(an, prog, v, 'eid', table='Req' if half == 'request' else 'Resp')
-                    ok = cell == ('model', 'cell', K(8, 0))
+                    ok = eid_is(an, 'Req' if half == 'request' else 'Resp', v, leaves[0].facts, K(8, 0))
                 except Exception:
                     ok = False
             chk.ob('C13.a', '%s initial EID' % ent, ok, chk.key(ent, 'C13.a', an.entries[ent]['key'], 'initial-eid'),
@@ -445,7 +485,13 @@ def c13(chk):
                    allowed_desc(know, byte_leaf(10)), allowed_desc(know, byte_leaf(11))), site=r.sp, detail={'leaf': dump_leaf(lf, prog, na)})
         want = in_term('packet', 12)
         targets = dict(writes)
-        both = set(targets) == {REQ_EID, RESP_EID} and all(eq_under(know, v, want) is True for v in targets.values()) and len(writes) == 2
+        both = set(targets) == {REQ_EID, RESP_EID} and len(writes) == 2
+        if both:
+            try:
+                selfv = lf.heap.get('self')
+                both = all(eid_is(an, tag, half_value_of(an, prog, selfv, nm), lf.facts, want) for nm, tag in (('request', 'Req'), ('response', 'Resp')))
+            except Exception:
+                both = False
         chk.ob('C13.b', r.sub + ' both halves', both,
                chk.key(ENT, 'C13.b', r.fn, 'halves:%s' % ','.join('%s=%s' % (k, show_term(v)) for k, v in sorted(targets.items()))),
                'an accepted assignment does not store the requested EID (request byte 12) in both halves: %s' % ', '.join('%s := %s' % (k, show_term(v)) for k, v in writes),
@@ -518,15 +564,19 @@ def c13(chk):
             chk.ob('C13.d', ent + ' present', ent in an.entries, chk.key(ent, 'C13.d', ent, 'missing'), 'accessor %s not found' % ent)
         if g in an.entries:
             leaves, _ = an.leaves(g)
-            ok = len(leaves) == 1 and leaves[0].kind == 'return' and leaves[0].value == in_term('self', 'eid') and \
-                not [e for e in leaves[0].effects if e[0] == 'cellwrite']
+            ok = bool(leaves) and all(l.kind == 'return' and eq_under(l.know, l.value, in_term('self', 'eid')) is True and
+                                      not [e for e in l.effects if e[0] == 'cellwrite'] for l in leaves)
             chk.ob('C13.d', g, ok, chk.key(g, 'C13.d', an.entries[g]['key'], 'get_eid-not-the-cell'),
                    'get_eid of the %s half does not return the content of its EID cell' % tag)
         if s in an.entries:
             leaves, _ = an.leaves(s)
             w = [e for e in leaves[0].effects if e[0] == 'cellwrite'] if leaves else []
             pn = param_names(prog, an.entries[s]['key'])[1]
-            ok = len(leaves) == 1 and leaves[0].kind == 'return' and len(w) == 1 and w[0][1] == 'self.eid' and w[0][2] == in_term(pn)
+            ok = bool(leaves)
+            for l in leaves:
+                w = [e for e in l.effects if e[0] == 'cellwrite']
+                ok = ok and l.kind == 'return' and len(w) == 1 and w[0][1] == 'self.eid' and \
+                    eid_is(an, half, l.heap.get('self'), l.facts, in_term(pn))
             chk.ob('C13.d', s, ok, chk.key(s, 'C13.d', an.entries[s]['key'], 'set_eid-not-the-cell'),
                    'set_eid of the %s half does not store its argument in its EID cell' % tag)
 
